@@ -84,15 +84,21 @@ fn order_project(rng: &mut Rng) -> Vec<(String, String)> {
             if rng.chance(1, 5) {
                 s.push_str("@UnsupportedAppUsage(maxTargetSdk=1, trackingBug=2, bogus=3, more=4) ");
             }
-            s.push_str(&format!("{}{t1} {name}({dir}{t2} x, {t1} y){code};{}", if rng.chance(1, 4) { "oneway " } else { "" }, if multi_line { "\n" } else { " " }));
+            // repeated annotations on a method and on its own argument (anything reported per annotation is produced
+            // when the enclosing construct is reduced, i.e. inner constructs first)
+            let (dup_m, dup_a) = if rng.chance(1, 4) { ("@Dup @Dup @nullable @nullable ", "@Dup2 @Dup2 ") } else { ("", "") };
+            s.push_str(dup_m);
+            s.push_str(&format!("{}{t1} {name}({dir}{dup_a}{t2} x, {t1} y){code};{}", if rng.chance(1, 4) { "oneway " } else { "" }, if multi_line { "\n" } else { " " }));
             // recovered syntax errors between members: syntax-stage and validation diagnostics interleave
             if rng.chance(1, 4) {
                 s.push_str(rng.pick_str(&["int = 3; ", "this is wrong; ", "void bad(; ", "Nope3 overflow() = 99999999999; ", "@X( ; "]));
             }
         }
-        s.push('}');
-        if rng.chance(1, 5) {
-            s.push_str(" trailing garbage");
+        match rng.below(8) {
+            0 => s.push_str("} trailing garbage"),
+            1 => {} // the item is never closed: no tree, only syntax-stage diagnostics
+            2 => s.push_str("} }"),
+            _ => s.push('}'),
         }
         files.push((format!("main{m}"), s));
     }
